@@ -21,12 +21,16 @@ FLOORS = {"quick": {"pairs": 800, "steps_compared": 3000, "bytes_compared": 1000
           "thorough": {"pairs": 15000, "steps_compared": 60000, "pairs_with_exception": 3000, "tcp_pairs": 8}}
 
 PERTS = ["none", "none", "fault", "stall", "cap", "corrupt", "auth", "disconnected", "eofstall", "syncfail", "large", "slowlink", "longpath", "closefault", "slowpush", "reconnect", "dirs", "baddest"]
+# (kept out of PERTS so that the existing cases keep their perturbations) device packets with zeroed stream ids in front of the answers to OPENs, in histories with re-connects
+EXTRA_PERTS = ["zeroid"]
 
 
 def gen_cases(tier, seed):
     n = 1000 if tier == "quick" else 18000
     for i in range(n):
         yield {"kind": "pair", "pert": PERTS[i % len(PERTS)], "seed": "%d:%d" % (seed, i)}
+    for j in range(60 if tier == "quick" else 900):
+        yield {"kind": "pair", "pert": "zeroid", "seed": "%d:z%d" % (seed, j)}
     # device-rejected pushes of more than one send buffer, the FAIL arriving before / after the OKAY of the WRTE that provoked it, at SEND or at a DATA record
     for j in range(40 if tier == "quick" else 400):
         yield {"kind": "pair", "pert": "syncfail", "seed": "%d:pf%d" % (seed, j), "force_push": True}
@@ -553,6 +557,13 @@ def run_case(case):
         # a pull whose local destination cannot be opened (missing directory / is a directory), in the middle of other operations
         bad = {"op": "pull", "path": "/bd", "size": rng.choice([10, 5000]), "seed": case["seed"], "rec": "64k", "split": "whole", "dest": rng.choice(["missingdir", "isdir"]), "cb": rng.choice([None, "ok"])}
         sc["steps"] = sc["steps"][:2] + [bad] + sc["steps"][2:4] + [dict(bad, dest="bytesio", path="/bd2")]
+        pert = "none"
+    if pert == "zeroid":
+        sc = scen.gen_scenario(rng, nsteps=rng.randint(2, 7), ops=["shell", "reboot", "root", "streaming_shell", "exec_out", "stat", "reboot", "shell"], hist=True)
+        for st in sc["steps"]:
+            if st["op"] == "reconnect":
+                st["close"] = int(case["seed"].split("z")[-1]) % 3 == 0
+        sc["dims"]["noise"] = ["zeroid"]
         pert = "none"
     if pert == "dirs":
         sc = scen.gen_scenario(rng, nsteps=rng.randint(1, 5), fails=True, dirs=True, hist=True)
